@@ -6,41 +6,142 @@ From V Require Import Common.Base C13.KwSpec C13.Token C13.LexSpec C13.LexProofs
 Definition parse_text_fuel (m : nat) (ni : bool) (s : list Z) : option expr :=
   match lex s with Some ts => parse_fuel m ni ts | None => None end.
 
-Lemma print_lex_all mw fi e : wf e -> lexok e ->
-  lex (print_expr mw fi e) = Some (toks (print_items mw fi LLowest e)).
+Lemma print_lex_all mw fi ss e : wf e -> lexok e ->
+  lex (print_expr mw fi ss e) = Some (toks (print_items mw fi ss LLowest e)).
 Proof.
-  intros Hwf Hlx. destruct (print_items_good mw e Hwf Hlx fi LLowest) as [G F].
+  intros Hwf Hlx. destruct (print_items_good mw e Hwf Hlx fi ss LLowest) as [G F].
   unfold print_expr. apply render_lex_all; [exact F | apply good_chain; exact G].
 Qed.
 
 (* fi: the expression is printed with the forbidIn flag and read back with the grammar parameter [~In] *)
-Theorem print_parse_roundtrip_all mw fi e : wf e -> lexok e ->
-  exists n, forall m, (n <= m)%nat -> parse_text_fuel m fi (print_expr mw fi e) = Some (norm e).
+Theorem print_parse_roundtrip_all mw fi ss e : wf e -> lexok e ->
+  exists n, forall m, (n <= m)%nat -> parse_text_fuel m fi (print_expr mw fi ss e) = Some (norm e).
 Proof.
-  intros Hwf Hlx. destruct (parse_print_items_all mw fi e Hwf) as [n Hn]. exists n. intros m Hm.
-  unfold parse_text_fuel. rewrite (print_lex_all mw fi e Hwf Hlx). apply Hn. exact Hm.
+  intros Hwf Hlx. destruct (parse_print_items_all mw fi ss e Hwf) as [n Hn]. exists n. intros m Hm.
+  unfold parse_text_fuel. rewrite (print_lex_all mw fi ss e Hwf Hlx). apply Hn. exact Hm.
 Qed.
 
-Theorem print_fixed_point_all mw fi e : wf e -> lexok e ->
-  exists n, forall m e', (n <= m)%nat -> parse_text_fuel m fi (print_expr mw fi e) = Some e' ->
-    forall mw' fi', print_expr mw' fi' e' = print_expr mw' fi' e.
+Theorem print_fixed_point_all mw fi ss e : wf e -> lexok e ->
+  exists n, forall m e', (n <= m)%nat -> parse_text_fuel m fi (print_expr mw fi ss e) = Some e' ->
+    forall mw' fi' ss', print_expr mw' fi' ss' e' = print_expr mw' fi' ss' e.
 Proof.
-  intros Hwf Hlx. destruct (print_parse_roundtrip_all mw fi e Hwf Hlx) as [n Hn]. exists n.
-  intros m e' Hm H mw' fi'. rewrite (Hn m Hm) in H. inversion H; subst e'.
+  intros Hwf Hlx. destruct (print_parse_roundtrip_all mw fi ss e Hwf Hlx) as [n Hn]. exists n.
+  intros m e' Hm H mw' fi' ss'. rewrite (Hn m Hm) in H. inversion H; subst e'.
   unfold print_expr. rewrite print_norm. reflexivity.
 Qed.
 
 (* with the concrete fuel of ParseSpec.parse (twice the number of tokens plus two) *)
-Theorem print_parse_roundtrip_concrete mw fi e : wf e -> lexok e -> parse_text fi (print_expr mw fi e) = Some (norm e).
+Theorem print_parse_roundtrip_concrete mw fi ss e : wf e -> lexok e -> parse_text fi (print_expr mw fi ss e) = Some (norm e).
 Proof.
-  intros Hwf Hlx. destruct (print_parse_roundtrip_all mw fi e Hwf Hlx) as [n Hn]. specialize (Hn n (Nat.le_refl _)).
-  unfold parse_text_fuel in Hn. unfold parse_text. destruct (lex (print_expr mw fi e)) as [ts|]; [|discriminate].
+  intros Hwf Hlx. destruct (print_parse_roundtrip_all mw fi ss e Hwf Hlx) as [n Hn]. specialize (Hn n (Nat.le_refl _)).
+  unfold parse_text_fuel in Hn. unfold parse_text. destruct (lex (print_expr mw fi ss e)) as [ts|]; [|discriminate].
   apply (parse_fuel_enough n). exact Hn.
 Qed.
 
-Theorem print_fixed_point_concrete mw fi e e' : wf e -> lexok e ->
-  parse_text fi (print_expr mw fi e) = Some e' -> forall mw' fi', print_expr mw' fi' e' = print_expr mw' fi' e.
+Theorem print_fixed_point_concrete mw fi ss e e' : wf e -> lexok e ->
+  parse_text fi (print_expr mw fi ss e) = Some e' -> forall mw' fi' ss', print_expr mw' fi' ss' e' = print_expr mw' fi' ss' e.
 Proof.
-  intros Hwf Hlx H mw' fi'. rewrite (print_parse_roundtrip_concrete mw fi e Hwf Hlx) in H. inversion H; subst e'.
+  intros Hwf Hlx H mw' fi' ss'. rewrite (print_parse_roundtrip_concrete mw fi ss e Hwf Hlx) in H. inversion H; subst e'.
   unfold print_expr. rewrite print_norm. reflexivity.
 Qed.
+
+(* ---- expression statements ----
+   14.5 ExpressionStatement : [lookahead not in { "{", function, async function, class, let "[" }] Expression ";"
+   On the fragment (no object literals, function or class expressions) the only restriction that can
+   bite is the two-token lookahead "let [".  parse_stmt refuses such a token list; the theorem says
+   that what the printer prints at the start of a statement (ss = true) is never refused. *)
+Definition starts_let_bracket (ts : list tok) : bool :=
+  match ts with
+  | TId s :: TP p :: _ => zlist_eqb s [108; 101; 116] && zlist_eqb p [91]
+  | _ => false
+  end.
+Definition parse_stmt (ts : list tok) : option expr := if starts_let_bracket ts then None else parse false ts.
+Definition parse_stmt_text (s : list Z) : option expr :=
+  match lex s with Some ts => parse_stmt ts | None => None end.
+
+(* the first two tokens of an expression printed at the start of a statement: either the expression is a
+   single identifier (one token), or the token list does not start with "let [" whatever follows *)
+Definition safe (l : list tok) : Prop := forall rest, starts_let_bracket (l ++ rest) = false.
+Definition Inv (e : expr) (l : list tok) : Prop := (exists s, e = EId s /\ l = [TId s]) \/ safe l.
+Definition not_lbrack (t : tok) : Prop := match t with TP p => zlist_eqb p [91] = false | _ => True end.
+
+Lemma safe_app l r : safe l -> safe (l ++ r).
+Proof. intros H rest. rewrite <- app_assoc. apply H. Qed.
+Lemma safe_tp p l : safe (TP p :: l).
+Proof. intro rest. reflexivity. Qed.
+Lemma safe_optok o l : safe (op_tok o :: l).
+Proof.
+  intro rest. simpl app. destruct (l ++ rest) as [|t2 r2]; destruct o; try reflexivity; destruct t2; reflexivity.
+Qed.
+Lemma optok_not_lbrack o : not_lbrack (op_tok o).
+Proof. destruct o; reflexivity. Qed.
+Lemma toks_op o : toks [IOp o] = [op_tok o].
+Proof. destruct o; reflexivity. Qed.
+Lemma inv_then e l t r : Inv e l -> not_lbrack t -> safe (l ++ t :: r).
+Proof.
+  intros [(s & _ & E)|H] Ht; [|apply safe_app; exact H]. subst l. intro rest. simpl.
+  destruct t as [x|x|b f|p]; try reflexivity. simpl in Ht. rewrite Ht. apply andb_false_r.
+Qed.
+
+Section WithMode.
+Variable mw : bool.
+Local Notation print_items := (Token.print_items mw).
+
+Lemma stmt_start_inv : forall e fi P, wf e -> Inv e (toks (print_items fi true P e)).
+Proof.
+  induction e as [s|s|b f|t IHt s|o v IHv|o l IHl r IHr|c IHc y IHy n IHn|t IHt i IHi|f IHf a IHa|f IHf a IHa| |x IHx r IHr];
+    intros fi P Hwf; try (destruct Hwf; fail).
+  - left. exists s. split; reflexivity.
+  - right. intro rest. reflexivity.
+  - right. intro rest. reflexivity.
+  - (* a.b *) right. destruct Hwf as (Hwt & _). cbn [Token.print_items]. rewrite toks_app. change (toks [IDot s]) with [TP [46]; TId s].
+    apply (inv_then t); [apply IHt; exact Hwt | reflexivity].
+  - (* unary *)
+    right. destruct Hwf as (Hwv & Hk & _). rewrite print_items_split. destruct (wrapped fi P (EUn o v)).
+    + rewrite !toks_app. apply safe_tp.
+    + rewrite body_un. destruct (op_kind o) eqn:Ek.
+      * rewrite toks_app. rewrite toks_op. apply safe_optok.
+      * rewrite toks_app. rewrite toks_op.
+        apply (inv_then v); [apply IHv; exact Hwv | apply optok_not_lbrack].
+      * congruence.
+  - (* binary *)
+    right. destruct Hwf as (Hwl & _). rewrite print_items_split. destruct (wrapped fi P (EBin o l r)).
+    + rewrite !toks_app. apply safe_tp.
+    + rewrite body_bin, !toks_app. rewrite toks_op. simpl app.
+      apply (inv_then l); [apply IHl; exact Hwl | apply optok_not_lbrack].
+  - (* conditional *)
+    right. destruct Hwf as (Hwc & _). rewrite print_items_split. destruct (wrapped fi P (ECond c y n)).
+    + rewrite !toks_app. apply safe_tp.
+    + rewrite body_cond, !toks_app. change (toks [IQuest]) with [TP [63]]. simpl app.
+      apply (inv_then c); [apply IHc; exact Hwc | reflexivity].
+  - (* index access: the guard of fix ac301ad *)
+    right. destruct Hwf as (Hwt & _). cbn [Token.print_items]. simpl andb.
+    destruct (is_let t) eqn:El.
+    + unfold paren. rewrite !toks_app. apply safe_tp.
+    + unfold paren. rewrite toks_app.
+      change (toks ([ILBrack] ++ print_items false false LLowest i ++ [IRBrack])) with (TP [91] :: toks (print_items false false LLowest i ++ [IRBrack])).
+      destruct (IHt false (tgt_level P) Hwt) as [(s & Et & E)|H]; [|apply safe_app; exact H].
+      subst t. rewrite E. intro rest. simpl. simpl in El. rewrite El. reflexivity.
+  - (* call *)
+    right. destruct Hwf as (Hwf' & _). rewrite print_items_split. destruct (wrapped fi P (ECall f a)).
+    + rewrite !toks_app. apply safe_tp.
+    + rewrite body_call, !toks_app. change (toks [ICallOpen]) with [TP [40]]. simpl app.
+      apply (inv_then f); [apply IHf; exact Hwf' | reflexivity].
+  - (* new *)
+    right. rewrite print_items_split. destruct (wrapped fi P (ENew f a)).
+    + rewrite !toks_app. apply safe_tp.
+    + unfold PrintParse.body. rewrite toks_app. change (toks [INew]) with [TId [110; 101; 119]]. intro rest. simpl app.
+      match goal with |- starts_let_bracket (_ :: ?l) = false => destruct l as [|t2 r2]; [reflexivity | destruct t2; reflexivity] end.
+Qed.
+
+(* statement-level round trip: the text printed for an expression statement is read back, as a statement, as the tree *)
+Theorem print_stmt_roundtrip_all e : wf e -> lexok e -> parse_stmt_text (print_expr mw false true e) = Some (norm e).
+Proof.
+  intros Hwf Hlx. unfold parse_stmt_text. rewrite (print_lex_all mw false true e Hwf Hlx). unfold parse_stmt.
+  assert (Hs : starts_let_bracket (toks (print_items false true LLowest e)) = false).
+  { destruct (stmt_start_inv e false LLowest Hwf) as [(s & _ & E)|H]; [rewrite E; reflexivity|].
+    specialize (H []). rewrite app_nil_r in H. exact H. }
+  rewrite Hs. destruct (parse_print_items_all mw false true e Hwf) as [n Hn].
+  apply (parse_fuel_enough n). apply Hn. apply Nat.le_refl.
+Qed.
+End WithMode.
